@@ -5299,7 +5299,17 @@ class PyCdlib:
                         new_list.append((linkrec, is_pvd))
                 entry.inode.linked_records = new_list
 
-        num_bytes_to_remove += len(self.eltorito_boot_catalog.record())
+                if not new_list:
+                    # The boot file had no name left, so this entry was the
+                    # last reference to its contents; release them.
+                    for index, ino in enumerate(self.inodes):
+                        if id(ino) == id(entry.inode):
+                            del self.inodes[index]
+                            num_bytes_to_remove += utils.ceiling_div(entry.inode.get_data_length(),
+                                                                     self.logical_block_size) * self.logical_block_size
+                            break
+
+        num_bytes_to_remove += self.logical_block_size
 
         self.eltorito_boot_catalog = None
 
